@@ -1027,7 +1027,38 @@ def rw_itermut(fi, args, spec=None):
     return edits
 
 
+def rw_closann(fi, args, spec=None):
+    """R-CLOSANN K T R: annotate closure literal K `|x| E` as `|x: T| -> (r: R) <spec> { E }` so that the unit can give
+    it an `ensures` (`at closure K spec`). Pure annotation."""
+    toks = fi.toks
+    src = fi.sf.src
+    edits = []
+    k = int(args[0])
+    pty, rty = args[1], args[2]
+    cl = fi.closures[k]
+    b1, b2 = cl['bar1'], cl['bar2']
+    if not (b2 == b1 + 2 and toks[b1 + 1].kind == 'id'):
+        raise LostAnchor(f'fn {fi.item.name}: R-CLOSANN needs a single-variable closure')
+    var = toks[b1 + 1].text
+    j = b2 + 1
+    while True:
+        t = toks[j]
+        if t.kind == 'punct' and t.text in ('(', '[', '{'):
+            j = match_close(toks, j)
+        elif t.kind == 'punct' and t.text in (')', ',', ']', '}', ';'):
+            break
+        j += 1
+    body = src[toks[b2 + 1].start:toks[j].start].strip()
+    sp = ''
+    if spec is not None:
+        for anchor, text, org in spec.inserts:
+            if anchor == f'closure {k} spec':
+                sp = '\n' + text + '\n'
+    return [(toks[b1].start, toks[j].start, f'|{var}: {pty}| -> (r: {rty}){sp} {{ {body} }}', 'R-CLOSANN')]
+
+
 REWRITES = {
+    'R-CLOSANN': rw_closann,
     'R-ITERMUT': rw_itermut,
     'R-INTOVEC': rw_intovec,
     'R-CLOSPAT': rw_clospat,
